@@ -2,6 +2,7 @@ package simplecue
 
 import (
 	"fmt"
+	"sort"
 	"strings"
 
 	"cuelang.org/go/cue"
@@ -121,10 +122,23 @@ func (resolver *referenceResolver) packageForToken(source cueast.Node, defaultPa
 		return defaultPackage
 	}
 
-	for importPath, pkg := range resolver.librariesMap {
-		if strings.Contains(filename, importPath) {
-			return pkg
+	// several import paths can match (ex: nested libraries): examine them in
+	// a fixed order, and let the most specific – the longest – one win.
+	importPaths := make([]string, 0, len(resolver.librariesMap))
+	for importPath := range resolver.librariesMap {
+		importPaths = append(importPaths, importPath)
+	}
+	sort.Strings(importPaths)
+
+	matchedImportPath := ""
+	for _, importPath := range importPaths {
+		if strings.Contains(filename, importPath) && len(importPath) > len(matchedImportPath) {
+			matchedImportPath = importPath
 		}
+	}
+
+	if matchedImportPath != "" {
+		return resolver.librariesMap[matchedImportPath]
 	}
 
 	return defaultPackage
